@@ -67,6 +67,7 @@ func checkC08(c *Ctx, r *Result, tier string) {
 	c08StringKind(c, r)
 	c08VerifyBeforeWrite(c, r)
 	c08CompareCoverage(c, r)
+	c08ConstantFormats(c, r)
 }
 
 // guardSite describes where the printer decides about brackets.
